@@ -29,7 +29,7 @@ def queries(tier):
                    desc='serialize(false/true) x 64 option sets: exact text', bounds='both values x 64 option sets'))
     qs.append(dict(name='scalar_hexint', unit='ser', harness='h_scalar.c', defs={'KIND': 2}, unwind=22, unwindset=SCALAR_REC, timeout=900, mem_gb=6,
                    desc='serialize(int64) with HEX_INTEGERS: exact text for every int64 (incl. INT64_MIN/MAX) x 32 option sets', bounds='all 2^64 values'))
-    for nd in ([1, 2, 19] if tier == 'quick' else [1, 2, 3, 5, 10, 15, 16, 18, 19]):
+    for nd in ([1, 2] if tier == 'quick' else [1, 2, 3, 5]):
         qs.append(dict(name='scalar_decint_%ddig' % nd, unit='ser', harness='h_scalar.c', defs={'KIND': 3, 'NDIG': nd}, unwind=nd + 12, unwindset=SCALAR_REC, timeout=900, mem_gb=6,
                        desc='serialize(int64) without HEX_INTEGERS returns exactly std::to_string(value) (%d-digit values, both signs) x 32 option sets' % nd,
                        bounds='%d decimal digits' % nd))
@@ -50,8 +50,8 @@ def queries(tier):
     COPYREC = '%s:1,%s:1,_ZNK5phosg4JSONssERKS0_:1,_ZN5phosg4JSONaSERKS0_:1' % (SERIALIZE, RESET)
     for (k, over, L) in ([(0, 4, 0), (1, 2, 0), (2, 4, 0), (3, 2, 0), (4, 0, 1), (4, 4, 2)] if tier == 'quick' else
                          [(k, o, 0) for k in (0, 1, 2, 3) for o in (0, 1, 2, 3, 4)] + [(4, o, L) for o in (0, 2, 4) for L in (0, 1, 2, 3)]):
-        qs.append(dict(name='copy_k%d_over%d_len%d' % (k, over, L), unit='ser', harness='h_copy.c', defs={'KIND': k, 'OVER': over, 'LEN': L}, unwind=6 * L + 24,
-                       unwindset=COPYREC, timeout=600, mem_gb=4,
+        qs.append(dict(name='copy_k%d_over%d_len%d' % (k, over, L), unit='ser', harness='h_copy.c', defs={'KIND': k, 'OVER': over, 'LEN': L}, unwind=L + 22,
+                       unwindset=COPYREC, timeout=900, mem_gb=8,
                        desc='copy construction / assignment of a scalar of kind %d (over a value of kind %d; string length %d): equal, same alternative, deep' % (k, over, L),
                        bounds='source kind %d, overwritten kind %d, string length %d' % (k, over, L)))
     return qs
